@@ -207,6 +207,12 @@ def dispatch_call(it, f, a, k):
             r = h(it, f.__self__, a, k)
             if r is not NotImplemented:
                 return r
+        if f.__name__ == "parse" and type(f.__self__).__module__.startswith("construct"):
+            from . import layout as _layout
+
+            r = _layout._construct_parse(it, f.__self__, a, k)
+            if r is not NotImplemented:
+                return r
 
     h = REGISTRY.calls.get(f) if _hashable(f) else None
     if h is not None:
@@ -237,7 +243,15 @@ def dispatch_call(it, f, a, k):
                 return r
         if name in MUTATORS:
             it.note_effect("call:" + name, slf)
-    return f(*a, **k)
+    try:
+        return f(*a, **k)
+    except Unmediated:
+        raise
+    except (TypeError, AttributeError, ValueError) as e:
+        # a native callable that was handed a symbolic value and rejected it: engine limit, not program behaviour
+        if any(isinstance(x, (Sym, SymSeq)) or getattr(x, "is_symbolic_value", False) for x in list(a) + list(k.values())):
+            raise Unsupported(f"native {getattr(f, '__qualname__', f)!r} rejected a symbolic argument: {type(e).__name__}: {e}"[:300])
+        raise
 
 
 def _hashable(f):
